@@ -60,7 +60,7 @@ PASS_THROUGH = {
     "as_slice", "rev", "skip", "take", "chain", "enumerate_DISABLED", "peekable", "values", "keys", "collect",
     "sum", "min", "max", "trim", "lines", "try_into", "try_from", "unwrap_or_default", "to_lowercase",
     "into_boxed_slice", "into_vec", "from_iter", "step_by", "zip_DISABLED", "index", "index_mut", "get", "get_mut",
-    "last", "first", "as_deref", "flatten", "ok", "err", "copied", "then_some", "cmp_DISABLED", "abs", "ln", "exp", "sqrt", "sin", "mul", "add",
+    "last", "first", "as_deref", "flatten", "ok", "err", "map_err", "copied", "then_some", "cmp_DISABLED", "abs", "ln", "exp", "sqrt", "sin", "mul", "add",
     "sub", "div", "neg", "not", "bitor", "bitand", "difference", "union", "intersection",
 }
 UNWRAP_LIKE = {"unwrap", "expect", "unwrap_or", "unwrap_or_else", "unwrap_unchecked", "unwrap_or_default"}
